@@ -161,7 +161,7 @@ func runC15(c *report.Ctx) {
 		if !ok || call.Call.StaticCallee() == nil {
 			return
 		}
-		name := an.FuncKey(call.Call.StaticCallee())
+		name := an.CanonKeyOf(call.Call.StaticCallee())
 		argT := false
 		for _, a := range call.Call.Args {
 			if tainted[a] {
@@ -205,7 +205,7 @@ func runC15(c *report.Ctx) {
 		if !ok || call.Call.StaticCallee() == nil {
 			return
 		}
-		name := an.FuncKey(call.Call.StaticCallee())
+		name := an.CanonKeyOf(call.Call.StaticCallee())
 		if !signTolerantParsers[name] {
 			return
 		}
@@ -347,7 +347,7 @@ func runC15(c *report.Ctx) {
 			if !ok || call.Call.StaticCallee() == nil {
 				return
 			}
-			if strings.HasSuffix(an.FuncKey(call.Call.StaticCallee()), "safetype.NewUint128FromUint") {
+			if strings.HasSuffix(an.CanonKeyOf(call.Call.StaticCallee()), "safetype.NewUint128FromUint") {
 				if k, ok := call.Call.Args[0].(*ssa.Const); ok && k.Value != nil && k.Value.ExactString() == constString(mpm) {
 					okMul = true
 				}
